@@ -148,8 +148,8 @@ def run_one(tape, tier, opts):
     chunk_opts = [1, 2, 3, 7, max(1, n_lines), max(1, n_lines - 1), n_lines + 1, 5000,
                   max(1, (n_lines + 1) // 2)]
     chunk = tape.choice(chunk_opts, "cov.chunk")
-    if wl["track_header"] and chunk < 2:
-        chunk = 2
+    if chunk <= wl.get("n_header_lines", 0):
+        chunk = wl["n_header_lines"] + 1  # a chunk must hold at least one bin (DESIGN 8.2 item 5)
     clock_mode = tape.weighted(
         [("normal", 5), ("stall", 2), ("jump_fwd", 1), ("jump_back", 1), ("mixed", 1)], "clock.mode")
     sut_indexes = tape.chance(1, 2, "bam.sut_indexes")
